@@ -3,6 +3,7 @@ package checks
 // C12 - concurrent SQL calls through SamehadaDB.ExecuteSQL are answered once, atomically and in a serial order.
 
 import (
+	"os"
 	"fmt"
 	"math/rand"
 	"runtime"
@@ -122,6 +123,9 @@ var c12Model = porcupine.Model{
 }
 
 func c12Run(env *core.Env, idx int) *core.CaseResult {
+	if idx%16 == 13 {
+		return c12Stampede(env, idx)
+	}
 	r := env.Rand(idx)
 	res := core.NewResult()
 	procs := []int{2, 4, 16}[r.Intn(3)]
@@ -354,20 +358,7 @@ func c12Run(env *core.Env, idx int) *core.CaseResult {
 	bgStop := make(chan struct{})
 	var bg sync.WaitGroup
 	bg.Add(1)
-	go func() {
-		defer bg.Done()
-		defer func() { recover() }()
-		for {
-			select {
-			case <-bgStop:
-				return
-			default:
-			}
-			db.S.ForceCheckpointingForTestcase()
-			db.UpdateStats()
-			time.Sleep(2 * time.Millisecond)
-		}
-	}()
+	go c12Background(db, bgStop, &bg)
 	// oracle 4: completion
 	done := make(chan struct{})
 	go func() { wg.Wait(); close(done) }()
@@ -393,26 +384,12 @@ func c12Run(env *core.Env, idx int) *core.CaseResult {
 		default:
 			hung = true
 			res.RestartChild = true
-			active := 0
-			for _, g := range strings.Split(d2, "\n\n") {
-				if !strings.Contains(g, "samehada.(*SamehadaDB).ExecuteSQL") && !strings.Contains(g, "samehada.(*RequestManager)") && !strings.Contains(g, "checks.c12Run.func") {
-					continue
-				}
-				if strings.Contains(g, "ForceCheckpointingForTestcase") || strings.Contains(g, "UpdateStats") {
-					continue
-				}
-				head := g
-				if i := strings.Index(g, "\n"); i > 0 {
-					head = g[:i]
-				}
-				if strings.Contains(head, "[running]") || strings.Contains(head, "[runnable]") || strings.Contains(head, "[sleep") || strings.Contains(head, "[syscall") {
-					active++
-				}
-			}
+			active, activeSample := c12EngineIdle(d2)
 			if n1 == n2 && f1 == finished.Load() && active == 0 {
 				res.Violate("call-never-returns", tags, desc, "%d of %d clients have not returned 70 s after start; no call completed during the last 10 s and every client / request-manager / statement goroutine is blocked on a channel or lock: deadlock or lost wake-up. Engine frames: %s", clients-int(finished.Load()), clients, engineFrames([]byte(d2)))
 			} else {
 				res.Inconclusive = "clients still busy after 70 s (retry storm or slow machine)"
+				fmt.Fprintf(os.Stderr, "C12 idx %d busy after 70 s: completed %d -> %d, finished clients %d -> %d of %d, %d engine goroutines not blocked; e.g. %s\n", idx, n1, n2, f1, finished.Load(), clients, active, activeSample)
 			}
 		}
 	}
@@ -476,6 +453,9 @@ func c12Run(env *core.Env, idx int) *core.CaseResult {
 		// overlap measure
 		overlap := 0
 		for i := range ops {
+			if burst {
+				break
+			}
 			for j := i + 1; j < len(ops); j++ {
 				a, b := ops[i], ops[j]
 				ia, ib := a.Input.(c12In), b.Input.(c12In)
@@ -551,6 +531,211 @@ func c12Run(env *core.Env, idx int) *core.CaseResult {
 	if idx < 2 {
 		res.Sample = desc
 	}
+	return res
+}
+
+// c12Background forces checkpoints and statistics updates next to the clients until stop is closed.
+func c12Background(db *sqlx.DB, stop chan struct{}, wg *sync.WaitGroup) {
+	defer wg.Done()
+	defer func() { recover() }()
+	for {
+		select {
+		case <-stop:
+			return
+		default:
+		}
+		db.S.ForceCheckpointingForTestcase()
+		db.UpdateStats()
+		time.Sleep(2 * time.Millisecond)
+	}
+}
+
+// c12EngineIdle reports how many goroutines inside a client call, the request manager or a statement thread are NOT blocked on a
+// channel / lock / select in the given dump (the harness's own background goroutine is ignored), and one of them as a sample.
+func c12EngineIdle(dump string) (active int, sample string) {
+	for _, g := range strings.Split(dump, "\n\n") {
+		if !strings.Contains(g, "samehada.(*SamehadaDB).ExecuteSQL") && !strings.Contains(g, "samehada.(*RequestManager)") && !strings.Contains(g, "checks.c12") {
+			continue
+		}
+		if strings.Contains(g, "ForceCheckpointingForTestcase") || strings.Contains(g, "UpdateStats") || strings.Contains(g, "checks.allStacks") || strings.Contains(g, "checks.c12Background") {
+			continue
+		}
+		head := g
+		if i := strings.Index(g, "\n"); i > 0 {
+			head = g[:i]
+		}
+		if strings.Contains(head, "[running]") || strings.Contains(head, "[runnable]") || strings.Contains(head, "[sleep") || strings.Contains(head, "[syscall") {
+			active++
+			if sample == "" {
+				sample = clipStr(g, 600)
+			}
+		}
+	}
+	return
+}
+
+// c12Stampede: every sixteenth history. In each of 150 rounds 400-1500 fresh goroutines enter ExecuteSQL at the same instant with ONE
+// short statement each (nine of ten: point reads) - far more callers than the request manager's channel holds, and answers that are
+// ready while most callers are still queueing their requests. Judged by the direct rules: every call returns, once, with the rows of
+// its own statement; a group write is atomic for the reads of the NEXT round (nothing runs between rounds). Progress is sampled every
+// 10 s: no completed call between two samples AND every client / request-manager / statement goroutine blocked -> call-never-returns.
+func c12Stampede(env *core.Env, idx int) *core.CaseResult {
+	r := env.Rand(idx)
+	res := core.NewResult()
+	old := runtime.GOMAXPROCS(16)
+	defer runtime.GOMAXPROCS(old)
+	callers := 400 + r.Intn(1101)
+	rounds := 150
+	if env.Thorough() {
+		rounds = 300
+	}
+	memKB := []int{1024, 4096}[r.Intn(2)]
+	db := sqlx.Open(fmt.Sprintf("%s/c12_%d", env.TmpDir, idx), memKB, sqlx.Options{})
+	desc := map[string]any{"seed": env.Seed, "idx": idx, "callers_per_round": callers, "rounds": rounds, "memKB": memKB, "class": "stampede"}
+	tags := []string{"equal-length-tokens", "burst-of-callers", "stampede"}
+	res.Add("stampede_histories", 1)
+	cols := []rm.Col{{Name: "id", K: rm.KInt}, {Name: "g1", K: rm.KInt}, {Name: "g2", K: rm.KInt}, {Name: "val", K: rm.KStr}}
+	if err := db.CreateTableSQL("acct0", cols); err != nil {
+		res.Inconclusive = "create table failed"
+		return res
+	}
+	var rows []rm.Row
+	for id := 0; id < 12; id++ {
+		rows = append(rows, rm.Row{rm.Int(int32(id)), rm.Int(int32(id % 3)), rm.Int(int32(id % 4)), rm.Str("init0000")})
+	}
+	txn := db.Begin()
+	db.InsertPlan(txn, "acct0", rows)
+	db.Commit(txn)
+	var mu sync.Mutex
+	failure := ""
+	fail := func(s string) {
+		mu.Lock()
+		if failure == "" {
+			failure = s
+		}
+		mu.Unlock()
+	}
+	var returned atomic.Int64
+	total := int64(0)
+	// tokens a row may hold: written by a group write of some round (acknowledged or not yet) or the initial one
+	for round := 0; round < rounds; round++ {
+		var wg sync.WaitGroup
+		start := make(chan struct{})
+		seeds := make([]int64, callers)
+		for i := range seeds {
+			seeds[i] = r.Int63()
+		}
+		for c := 0; c < callers; c++ {
+			wg.Add(1)
+			go func(c int) {
+				defer wg.Done()
+				defer func() {
+					if p := recover(); p != nil {
+						fail("client panicked: " + fmt.Sprint(p))
+					}
+				}()
+				lr := rand.New(rand.NewSource(seeds[c]))
+				<-start
+				if lr.Intn(10) == 0 {
+					g := lr.Intn(3)
+					sql := fmt.Sprintf("UPDATE acct0 SET val = 'r%03d%04d' WHERE g1 = %d;", round, c, g)
+					err, out := db.S.ExecuteSQL(sql)
+					if err != nil || len(out) != 0 {
+						fail(fmt.Sprintf("%s returned (%v, %v)", sql, err, out))
+					}
+				} else {
+					id := int32(lr.Intn(12))
+					sql := fmt.Sprintf("SELECT id, val FROM acct0 WHERE id = %d;", id)
+					err, out := db.S.ExecuteSQL(sql)
+					if err != nil || len(out) != 1 || len(out[0]) != 2 {
+						fail(fmt.Sprintf("%s returned (%v, %v)", sql, err, out))
+					} else if got, ok := out[0][0].(int32); !ok || got != id {
+						fail(fmt.Sprintf("%s returned the row of another statement: %v", sql, out))
+					} else if v, ok := out[0][1].(string); !ok || len(v) != 8 {
+						fail(fmt.Sprintf("%s returned a value nobody wrote: %v", sql, out))
+					}
+				}
+				returned.Add(1)
+			}(c)
+		}
+		total += int64(callers)
+		close(start)
+		fin := make(chan struct{})
+		go func() { wg.Wait(); close(fin) }()
+		last := int64(-1)
+		stalled := 0
+	wait:
+		for {
+			select {
+			case <-fin:
+				break wait
+			case <-time.After(10 * time.Second):
+				n := returned.Load()
+				if n != last {
+					last, stalled = n, 0
+					continue
+				}
+				active, sample := c12EngineIdle(allStacks())
+				if active == 0 && returned.Load() == n {
+					d2 := allStacks()
+					res.RestartChild = true
+					res.Violate("call-never-returns", tags, desc, "round %d: %d of %d calls issued so far have returned, none during the last 10 s, and every client / request-manager / statement goroutine is blocked on a channel or lock: deadlock or lost wake-up. Engine frames: %s", round, n, total, engineFrames([]byte(d2)))
+					return res
+				}
+				stalled++
+				if stalled >= 6 {
+					res.RestartChild = true
+					res.Inconclusive = "clients still busy after 70 s (retry storm or slow machine)"
+					fmt.Fprintf(os.Stderr, "C12 idx %d stampede stalled: %d of %d returned, %d engine goroutines not blocked, e.g. %s\n", idx, n, total, active, sample)
+					return res
+				}
+			}
+		}
+		// between rounds nothing runs: a group is uniform (group writes are atomic and serial)
+		if round%10 == 9 || round == rounds-1 {
+			var out [][]interface{}
+			var ferr error
+			if msg, panicked := guarded(func() { ferr, out = db.S.ExecuteSQL("SELECT id, val FROM acct0 WHERE id >= 0;") }); panicked || ferr != nil {
+				res.Violate("panic", tags, desc, "read between rounds failed: %s %v", msg, ferr)
+				return res
+			}
+			if len(out) != 12 {
+				res.Violate("row-count-changed", tags, desc, "%d rows at quiescence after round %d (the workload neither adds nor removes rows)", len(out), round)
+				return res
+			}
+			byGroup := map[int32]map[string]bool{}
+			for _, row := range out {
+				g := row[0].(int32) % 3
+				if byGroup[g] == nil {
+					byGroup[g] = map[string]bool{}
+				}
+				byGroup[g][row[1].(string)] = true
+			}
+			for g, vals := range byGroup {
+				if len(vals) != 1 {
+					res.Violate("group-write-not-atomic", tags, desc, "after round %d with no call in flight the rows of group g1=%d hold %d different tokens %v: some multi-row UPDATE took effect partially", round, g, len(vals), vals)
+					return res
+				}
+			}
+			res.Add("stampede_quiescent_reads", 1)
+		}
+		if failure != "" {
+			break
+		}
+	}
+	res.Add("stampede_rounds", int64(rounds))
+	res.Add("burst_operations_returned", returned.Load())
+	res.Add("histories", 1)
+	if failure != "" {
+		k := "wrong-result"
+		if strings.Contains(failure, "panicked") {
+			k = "panic"
+		}
+		res.Violate(k, tags, desc, "%s", clipStr(failure, 600))
+	}
+	res.Nontrivial = true
+	guarded(func() { db.S.ShutdownForTescase() })
+	res.Key = fmt.Sprintf("c12-%d", idx)
 	return res
 }
 
